@@ -49,7 +49,7 @@ NONE = "-"
 
 RFC = ["10.0.0.0/8", "172.16.0.0/12", "192.168.0.0/16"]
 CLASSES = ["0.0.0.0/1", "128.0.0.0/2", "192.0.0.0/3", "224.0.0.0/4"]
-PA1 = ["11.11.0.0/16", "111.111.111.111"]
+PA1 = ["11.11.0.0/16", "111.111.111.111", "10.9.8.7"]     # the last one lies inside a private block (a host inside 10/8 does not stand for 10/8)
 # token -> text given to netconan (the spec owns the meaning of list and host-bit tokens:
 # Cli!Items / Cli!HbVal; check_tables() compares this table with what TLC emits)
 TXT = {
